@@ -315,3 +315,49 @@ def describe(events):
         else:
             out.append(" ".join(str(x) for x in e)[:60])
     return out
+
+
+def compare_b09(text_a, text_b, *, library, init_mode="symbolic", step_bound=machine.STEP_BOUND, timeout_ms=10000, stats=None):
+    """B09 <-> B09 equivalence of two emitted programs for all inputs (used for option pairs)"""
+    res = Result()
+    st = stats or smt.STATS
+    try:
+        a_stmts = b09front.parse_program(text_a)
+        b_stmts = b09front.parse_program(text_b)
+    except SyntaxErr as e:
+        res.status = "syntax"
+        res.findings.append(Finding("syntax", str(e)))
+        return res
+    mode = "bv" if (walk(a_stmts, lambda t: t[0] in ("and", "or", "not")) or walk(b_stmts, lambda t: t[0] in ("and", "or", "not"))) else "real"
+    sem = machine.Sem(mode)
+    rm = refmap_mod.RefMap(library)
+    counters = for_counters(a_stmts, b_stmts)
+    am = machine.Machine(machine.lower(a_stmts, "b09"), sem, init_mode=init_mode, lib=library, refmap=rm)
+    try:
+        a_leaves = am.run(machine.initial_state(), step_bound)
+    except RuntimeError as e:
+        res.status = "outside"
+        res.note = str(e)
+        return res
+    res.counts["cb_paths"] = len(a_leaves)
+    for al in a_leaves:
+        if al.status == "bound":
+            res.counts["cb_bound"] += 1
+            continue
+        bm = machine.Machine(machine.lower(b_stmts, "b09"), sem, init_mode=init_mode, lib=library, refmap=rm)
+        b0 = machine.initial_state()
+        b0.cond = list(al.cond)
+        try:
+            b_leaves = bm.run(b0, step_bound * 2)
+        except RuntimeError as e:
+            res.findings.append(Finding("path-explosion", str(e)))
+            continue
+        res.counts["b09_paths"] += len(b_leaves)
+        for bl in b_leaves:
+            # diagnostics are symmetric here: drop them from both traces
+            al2 = al.clone()
+            al2.trace = [e for e in al.trace if e[0] not in DIAG_KINDS]
+            if al.status in ("loop", "type-error", "zero-trip") and bl.status == al.status:
+                continue
+            compare_leaves(res, sem, al2, bl, counters, am, bm, timeout_ms, st)
+    return res
